@@ -238,7 +238,7 @@ def replay(arms, prop, path, armed):
 
 
 def run_check(prop, arms, level, tier, seed, workers, rule, assumptions, real_stub, armed=None,
-              runs_override=None, extra_coverage=None):
+              runs_override=None, extra_coverage=None, expected_probes=()):
     """Run all arms of one property's check; print verdict lines; write evidence. -> exit code"""
     t0 = time.time()
     armed = armed or {prop}
@@ -325,7 +325,7 @@ def run_check(prop, arms, level, tier, seed, workers, rule, assumptions, real_st
         "simulated_steps": total["steps"],
         "fault_kinds_fired": dict(sorted(faults.items())),
         "probes": dict(sorted(probes.items())),
-        "probes_at_zero": [],
+        "probes_at_zero": sorted(p for p in expected_probes if not probes.get(p)),
         "stats": dict(sorted(stats.items())),
         "known_findings_hit": {k: c for k, (e, c, v) in known_hits.items()},
         "violations_reported": reported,
